@@ -487,6 +487,87 @@ def attrsign(run, fx):
                      'division in constraints and actions give the wrong result' % fn.f.get('ret'))
 
 
+def runfsm_exec(run, fx):
+    """PRECEDENCE, the matching side, by bounded execution: Pass::runFSM is interpreted (SlotMap / FiniteStateMachine accessors from their
+    own CFGs; accumulate_rules is a native that records the state it is given) on a three-state machine for the rules `a` and `a b`
+    (state 1 = after a: success AND transitional, state 2 = after a b: success) over every stream of 1..3 glyphs drawn from a, b, a
+    glyph without a column and a glyph id beyond the glyph count.  The rules accumulated and the verdict are those of the walk the
+    format describes: success states met so far stay matched when the next glyph is unknown to the pass or the stream ends."""
+    import itertools
+    from . import ordint as O
+    fn = fx.one('graphite2::Pass::runFSM')
+    PP, PF, PM, PS, PG = 'graphite2::Pass::', 'graphite2::FiniteStateMachine::', 'graphite2::SlotMap::', 'graphite2::Slot::', 'graphite2::Segment::'
+    srec = fx.record('graphite2::Slot')
+    prec = fx.record('graphite2::Pass')
+    NG = 5                         # glyph ids 0..4 exist; 1 = a (column 0), 2 = b (column 1), 3 has no column; 9 is beyond the glyph count
+    cols = [0xFFFF, 0, 1, 0xFFFF, 0xFFFF]
+    trans = [0, 0,   1, 0,   0, 2]          # 3 transitional states x 2 columns: 0 -> (a:0? ...) filled below
+    # state 0 = start, 1 = after a, 2 = after a b (final: not transitional).  numTransition = 2 (states 0 and 1 have rows)
+    trans = [1, 0,    0, 2]
+    cases = 0
+    for n in range(1, 4):
+        for gl in itertools.product((1, 2, 3, 9), repeat=n):
+            slots = []
+            for i, g in enumerate(gl):
+                s_ = O.Rec()
+                for f in srec['fields']:
+                    s_[PS + f['n']] = O.Ptr(None) if f.get('ptr') else 0
+                s_[PS + 'm_glyphid'] = g
+                s_['#'] = i
+                slots.append(s_)
+            for i, s_ in enumerate(slots):
+                s_[PS + 'm_next'] = O.Ptr(slots[i + 1]) if i + 1 < n else O.Ptr(None)
+                s_[PS + 'm_prev'] = O.Ptr(slots[i - 1]) if i else O.Ptr(None)
+            pas = O.Rec()
+            for f in prec['fields']:
+                pas[PP + f['n']] = O.Ptr(None) if f.get('ptr') else 0
+            states = O.Vec([O.Rec({'#state': k}) for k in range(3)])
+            pas[PP + 'm_cols'] = O.It(O.Vec(list(cols)), 0)
+            pas[PP + 'm_transitions'] = O.It(O.Vec(list(trans)), 0)
+            pas[PP + 'm_startStates'] = O.It(O.Vec([0]), 0)
+            pas[PP + 'm_states'] = O.It(states, 0)
+            pas[PP + 'm_numGlyphs'], pas[PP + 'm_numTransition'], pas[PP + 'm_numColumns'], pas[PP + 'm_successStart'] = NG, 2, 2, 1
+            pas[PP + 'm_maxPreCtxt'] = pas[PP + 'm_minPreCtxt'] = 0
+            mapvec = O.Vec([O.Ptr(None)] * 70)
+            smap = O.Rec({PM + 'segment': O.Rec(), PM + 'm_slot_map': O.It(mapvec, 0), PM + 'm_precontext': 0, PM + 'm_size': 0,
+                          PM + 'm_highwater': O.Ptr(None), PM + 'm_highpassed': False, PM + 'm_maxSize': 10, PM + 'm_dir': 0})
+            acc = []
+
+            def accumulate(I, f, e, obj, a, acc=acc):
+                st_ = I.rv(a[0])
+                acc.append(st_['#state'])
+                return None
+            rules = O.Rec({'#rules': 1})
+            fsm = O.Rec({PF + 'slots': smap, PF + 'rules': rules, PF + 'dbgout': O.Ptr(None)})
+            nat = {'graphite2::FiniteStateMachine::Rules::accumulate_rules': accumulate, 'graphite2::FiniteStateMachine::Rules::clear': lambda I, f, e, obj, a: None}
+            it = O.Interp(fx, natives=nat)
+            it.MAX_STEPS = 6000
+            cases += 1
+            desc = 'glyph stream %s (1 = a, 2 = b, 3 = no column in this pass, 9 = beyond the glyph count), rules `a` and `a b`' % (list(gl),)
+            try:
+                r = it.call(fn, pas, [fsm, O.Ptr(slots[0])])
+            except O.Violation as v:
+                return cases, '%s: %s (%s)' % (desc, v.what, v.loc)
+            # the walk the format describes
+            want, state = [], 0
+            for g in gl:
+                if g >= NG or cols[g] == 0xFFFF or state >= 2:
+                    break
+                state = trans[state * 2 + cols[g]]
+                if state >= 1:
+                    want.append(state)
+                if state == 0:
+                    break
+            if acc != want:
+                return cases, '%s: the success states accumulated are %s, expected %s' % (desc, acc, want)
+            if want and not r:
+                return cases, ('%s: runFSM answers "no match" although it passed the success state(s) %s -- the rule(s) matched so far are thrown away because of the glyph that follows them'
+                               % (desc, want))
+            if smap[PM + 'm_size'] < 1:
+                return cases, '%s: no slot was pushed into the slot map' % desc
+    return cases, None
+
+
 def run(run):
     vm = R.get_vm(run)
     fx = vm.fx
@@ -516,7 +597,26 @@ def run(run):
             run.held('PRECEDENCE', inst_, ar_.where(), '%d abstract executions' % cases_)
     except (AnalysisBroken, O_.AnalysisBroken) as ex:
         run.broken('PRECEDENCE', inst_, str(ex), ar_.where())
+    irf_ = 'runFSM accumulates the rules of every success state it passes and keeps them (interpreted)'
+    try:
+        cases_, bad_ = runfsm_exec(run, fx)
+        if bad_:
+            run.violated('PRECEDENCE', irf_, fx.one('graphite2::Pass::runFSM').where(), bad_)
+        else:
+            run.held('PRECEDENCE', irf_, fx.one('graphite2::Pass::runFSM').where(), '%d abstract executions' % cases_)
+    except AnalysisBroken as ex:
+        run.broken('PRECEDENCE', irf_, str(ex), '')
     firstpassing(run, fx)
+    inst_ = 'INSERT / DELETE change the stream as documented: the one slot added / removed, cursor and high-water mark moved with it (handlers interpreted)'
+    try:
+        from . import c03 as c03_
+        cases_, bad_ = c03_.handlers_exec(run, vm, 3)          # "executes that rule's ... insertions, deletions ... and resumes at the position the rule returns" (shared with C03)
+        if bad_:
+            run.violated('ATTRSEM', inst_, vm.handlers['insert'].where(), bad_)
+        else:
+            run.held('ATTRSEM', inst_, vm.handlers['insert'].where(), '%d abstract executions' % cases_)
+    except AnalysisBroken as ex:
+        run.broken('ATTRSEM', inst_, str(ex), '')
     from . import posexec
     posexec.finalise_exec(run, fx, rules=('SHIFTFREE',), deep=getattr(run, 'tier', 'quick') != 'quick', ids={'SHIFTFREE': 'ATTRSEM'})   # what attr_set shift / advance mean for positions
     pureconstraint(run, vm)
